@@ -142,6 +142,8 @@ class C14(framework.PropertyCheck):
                 c['ys'] = self.gen_list(rng)
             if op in ('in', 'append'):
                 c['x'] = rng.choice(xs) if xs and rng.random() < 0.5 else rng.choice([1, 'a', ('sym', 'p'), [1, 2], 9])
+                if op == 'in' and rng.random() < 0.5:
+                    c['more'] = [rng.choice(xs) if xs and rng.random() < 0.6 else rng.choice([1, 'a', 9, 0]) for _ in range(rng.randint(1, 2))]
             if op == 'map':
                 c['f'] = rng.choice(list(MAPS))
             if op == 'fold':
@@ -195,7 +197,8 @@ class C14(framework.PropertyCheck):
         if op == 'list':
             return list(xs)
         if op == 'in':
-            return any(_eq(c['x'], y) for y in xs)
+            # several probe values: every one of them must be an element
+            return all(any(_eq(p, y) for y in xs) for p in [c['x']] + c.get('more', []))
         if op == 'catlit':
             return {'tail': xs + [c['a'], c['b']], 'around': [c['a']] + xs + [c['b']], 'head': [c['a'], c['b']] + xs}[c['shape']]
         if op == 'cat':
@@ -245,7 +248,7 @@ class C14(framework.PropertyCheck):
         if op == 'list':
             return '(list ' + ' '.join(q(x) if isinstance(x, (list, tuple)) else lit(x) for x in c['xs']) + ')'
         if op == 'in':
-            return f'(in {q(c["x"])} xs)'
+            return '(in ' + ' '.join(q(p) for p in [c['x']] + c.get('more', [])) + ' xs)'
         if op == 'catlit':
             # several numeric literals next to a list operand: each is an element of its own
             return {'tail': f'(+ xs {c["a"]} {c["b"]})', 'around': f'(+ {c["a"]} xs {c["b"]})', 'head': f'(+ {c["a"]} {c["b"]} xs)'}[c['shape']]
